@@ -4,6 +4,7 @@ import (
 	"fmt"
 	"go/token"
 	"go/types"
+	"sort"
 
 	"golang.org/x/tools/go/ssa"
 )
@@ -47,6 +48,21 @@ func (x *Exec) execBlock(fr *frame, b *ssa.BasicBlock, st State) []edge {
 					t.Elems = append(t.Elems, x.operand(fr, &st, r))
 				}
 				res = t
+			}
+			if fr.top && x.fc != nil && len(x.fc.AtReturn) > 0 {
+				ord := returnOrdinal(fr.fn, i)
+				for k, c := range x.fc.AtReturn[ord] {
+					o := x.loopOpts(fr, nil)
+					o.result = res
+					g := x.evalGoalClause(fr, &st, c, o)
+					pos := ""
+					if i.Pos().IsValid() {
+						pp := x.prog.fset.Position(i.Pos())
+						pos = fmt.Sprintf("%s:%d", pp.Filename, pp.Line)
+					}
+					x.vc.oblige(&Obligation{Name: fmt.Sprintf("%s#return%d.cond%d", fr.name, ord, k+1), Kind: "post", Func: fr.name,
+						Guard: st.reach, Goal: g, Src: fmt.Sprintf("at return %d (%s): %s", ord, pos, c.Src), Pos: pos, Slow: c.Slow})
+				}
 			}
 			fr.rets = append(fr.rets, edge{b, nil, st})
 			fr.retVals = append(fr.retVals, res)
@@ -653,4 +669,23 @@ func (x *Exec) runDefers(fr *frame, st *State) {
 		*st = m
 	}
 	st.defers = nil
+}
+
+// returnOrdinal numbers the return statements of a function in source order (1-based).
+func returnOrdinal(fn *ssa.Function, r *ssa.Return) int {
+	var rets []*ssa.Return
+	for _, b := range fn.Blocks {
+		for _, in := range b.Instrs {
+			if rr, ok := in.(*ssa.Return); ok {
+				rets = append(rets, rr)
+			}
+		}
+	}
+	sort.SliceStable(rets, func(i, j int) bool { return rets[i].Pos() < rets[j].Pos() })
+	for k, rr := range rets {
+		if rr == r {
+			return k + 1
+		}
+	}
+	return 0
 }
